@@ -203,10 +203,14 @@ func init() {
 			Assumptions: []string{
 				"'promptly' = within 4 read delays + max latency + one poll quantum of the instant the transport first reported the loss; timeouts are >= 400 read delays",
 				"after a read error or EOF the device no longer answers; writes are either dropped silently or still delivered (both variants generated)",
-				"NETCONF sessions are covered by the NETCONF leg (see components)",
+				"leg N runs the same enumeration over NETCONF sessions (scenario family C06N)",
 			},
 			QuickRuns: 48,
 			ThoroughS: 600,
+			Legs: []Leg{
+				{Name: "D", QuickRuns: 48, Share: 0.7},
+				{Name: "N", Prop: "C06N", QuickRuns: 40, Share: 0.3},
+			},
 		},
 		Gen:    genC06,
 		New:    func() Scenario { return &Session{} },
